@@ -246,6 +246,11 @@ func clMalform(doc []byte, e *clEntry, kind string) []byte {
 
 func runC17(r *rt.Run, tier string) {
 	t := r.T
+	if t.Draw(8, "c17.part") == 7 {
+		r.Stats["part.concurrent"]++
+		c17Concurrent(r, tier)
+		return
+	}
 	entries, doc := genChangelogR(t, tier, r)
 	faulty := t.Bool(1, 2, "config.faulty")
 	api := "Parse"
@@ -424,6 +429,55 @@ func runC17(r *rt.Run, tier string) {
 	}
 }
 
+// c17Concurrent: an input that ends inside an entry is parsed first (whatever
+// it leaves behind stays in the process), then two callers parse their own
+// changelogs concurrently, interleaved at every stream read; each must get
+// exactly its own entries.
+func c17Concurrent(r *rt.Run, tier string) {
+	t := r.T
+	_, doc0 := genChangelogR(t, tier, r)
+	cut := simio.NewFixedReader(r, "cut", doc0, 0, false)
+	cut.TruncateAt(len(doc0) / 2)
+	r.Solo("truncated-first", func() { changelog.Parse(cut) })
+	type job struct {
+		entries []*clEntry
+		got     changelog.ChangelogEntries
+		err     error
+		task    *rt.Task
+	}
+	jobs := make([]*job, 2+t.Draw(2, "c17.njobs"))
+	r.Sticky = t.Draw(2, "sched.sticky")
+	for i := range jobs {
+		j := &job{}
+		var doc []byte
+		j.entries, doc = genChangelogR(t, tier, r)
+		rd := simio.NewFixedReader(r, fmt.Sprintf("cl%d", i), doc, []int{1, 7, 64}[t.Draw(3, "c17.chunk")], false)
+		j.task = r.Go(fmt.Sprintf("P%d", i), func() { j.got, j.err = changelog.Parse(rd) })
+		jobs[i] = j
+	}
+	r.Sched()
+	r.Probe("concurrent-parses-after-a-truncated-one")
+	for i, j := range jobs {
+		if taskTrouble(r, "C17", "concurrent", j.task) {
+			return
+		}
+		noNL := j.entries[len(j.entries)-1].nlEnd == j.entries[len(j.entries)-1].trailerEnd
+		if j.err != nil {
+			if !noNL {
+				r.Violate("C17/error-on-wellformed", "Parse/concurrent", "caller %d: %v", i, j.err)
+			}
+			continue
+		}
+		if len(j.got) != len(j.entries) {
+			r.Violate("C17/entry-count", "Parse/concurrent", "caller %d got %d entries, wrote %d", i, len(j.got), len(j.entries))
+			continue
+		}
+		for k := range j.got {
+			clCompare(r, "Parse/concurrent", &j.got[k], j.entries[k], k)
+		}
+	}
+}
+
 func init() {
 	register(&Prop{
 		ID: "C17", Level: "fault_enumeration", Variant: "N", Design: "DESIGN.md §5 C17",
@@ -436,5 +490,5 @@ func init() {
 		},
 		Assumptions: []string{"reference renderer and entry model written from deb-changelog(5), independent of the library", "time.Time comparison trusts the Go standard library"},
 	})
-	propProbes["C17"] = []string{"change-line-longer-than-4096-bytes", "change-line-with-carriage-return", "no-final-newline", "truncate-on-entry-boundary", "truncate-inside-entry", "truncate-only-final-newline-missing"}
+	propProbes["C17"] = []string{"concurrent-parses-after-a-truncated-one", "change-line-longer-than-4096-bytes", "change-line-with-carriage-return", "no-final-newline", "truncate-on-entry-boundary", "truncate-inside-entry", "truncate-only-final-newline-missing"}
 }
